@@ -440,7 +440,11 @@ func SpecMatch(pattern string, hasWild bool, s string) bool {
 //@   ensures[C09,C15] nrs != nil
 //@   ensures[C01,C03,C13] forall x *ResourceSubscription :: x == nrs && !fresh(x) && old(x.state) > stateRequested ==>
 //@       x.version == old(x.version) && x.model == old(x.model) && x.collection == old(x.collection) && x.state == old(x.state)
-//@   ensures[C01] forall x *ResourceSubscription :: x == nrs && !fresh(x) && old(x.state) <= stateRequested && x.state != stateError ==> x.version == 0
+//@   ensures[C01] forall x *ResourceSubscription :: x == nrs && !fresh(x) && old(x.state) <= stateRequested && x.state > stateRequested ==> x.version == 0
+// A response only completes its own request: a resource whose own get request is in flight is
+// left in that state (its own response loads all of its subscribers, once each); this is the
+// guarantee behind the entry assumption "the request's resource is still in the requested state".
+//@   ensures[C03,C13] forall x *ResourceSubscription :: x != rs && !fresh(x) && old(x.state) == stateRequested ==> x.state == stateRequested
 //@   ensures[C09,C15] nrs.state == stateError ==> nrs == rs && rs.subs == nil && rs.e.count == old(rs.e.count) - old(card(rs.subs)) &&
 //@       len(sublist) == old(card(rs.subs)) && (rs.query == "" ==> rs.e.base == nil) && (rs.query != "" ==> !has(rs.e.queries, rs.query))
 //@   safety[C15]
